@@ -9,7 +9,7 @@ from ..lang import ARITH_OPS, CMP_OPS
 PROPERTY = "C01"
 LEVEL = "exploration"
 TIMEOUT = 240
-BUDGET = {"quick": 150, "thorough": 1500}
+BUDGET = {"quick": 600, "thorough": 3600}
 RULE = ("Seeded, stratified random stateless programs (expression DAGs over typed/untyped inputs and int "
         "constants; strata listed under coverage.strata) compiled by the real compiler under the first(seed) "
         "solver schedule and executed in the circuit model for boundary-biased int32 valuations; every "
